@@ -258,8 +258,9 @@ task_curve.contract_fn = "curves.Curve.eval"
 # --------------------------------------------------------------------------------------
 def tasks(tier, seed):
     from ..pyvc.driver import verify
-    from ..contracts import kv, misc
-    ts = [(verify, (kv.SPAN_SINGLE, "heavy", "ImmutableKnotVector.__span_single")),
+    from ..contracts import curvesv, kv, misc
+    ts = [(verify, (c, m, q, v)) for c, m, q, v in curvesv.ALL if q == "Curve.eval"]
+    ts += [(verify, (kv.SPAN_SINGLE, "heavy", "ImmutableKnotVector.__span_single")),
           (verify, (kv.VALID_SINGLE, "heavy", "ImmutableKnotVector.__valid_single")),
           (verify, (misc.HORNER, "heavy", "BasisFunction.horner_method"))]
     for sh in tier_shapes(tier):
